@@ -63,6 +63,21 @@ def insert_everywhere(prem, s):
 def mk(conc, prem):
     return ':'.join([conc] + list(prem))
 
+def select(name, tier):
+    """stratified slice of the plan: every k-th argument within each (fragment, number of premises, uses a binary predicate) stratum,
+    so that every shape family is represented whatever the size of the others"""
+    k = (24 if name in sweep.SLOW else 8) if tier == 'quick' else 2
+    seen = {}
+    out = []
+    for frag, a in plan(name, tier):
+        binary = 'H' in a
+        key = (frag, a.count(':'), binary)
+        i = seen[key] = seen.get(key, -1) + 1
+        every = max(1, k // 3) if binary else k
+        if i % every == 0:
+            out.append(a)
+    return out
+
 def _task(task):
     name, items, tier = task
     tabx.setup()
@@ -129,8 +144,7 @@ def run(ctx):
     names = sweep.logic_names()
     tasks = []
     for n in names:
-        items = [a for _, a in plan(n, ctx.tier)]
-        items = sweep.thin(items, (24 if n in sweep.SLOW else 8) if ctx.quick else 2)
+        items = select(n, ctx.tier)
         for ch in gen.chunks(items, 6 if n in sweep.SLOW else 3):
             if ch:
                 tasks.append((n, ch, ctx.tier))
@@ -140,7 +154,7 @@ def run(ctx):
     cov = dict(
         evaluations=sum(r['execs'] for r in res),
         distinct_nontrivial=sum(r['refl'] + r['mono'] + r['ren'] for r in res),
-        rule=('base arguments: every ' + ('8th' if ctx.quick else '2nd') + ' argument of the C01 plan (PROP, MODAL, FO, FO-modal) per logic; reflexivity: the conclusion inserted at every '
+        rule=('base arguments: every ' + ('8th' if ctx.quick else '2nd') + ' argument of each (fragment, premise count) stratum of the C01 plan (PROP, MODAL, FO, FO-modal) per logic, every 2nd-3rd of the binary-predicate shapes; reflexivity: the conclusion inserted at every '
               'premise position and each premise as conclusion; monotonicity: each valid base x extra premises (fresh letters, constants, predicates, world-creating and '
               'witness-creating sentences) at every position; renaming: 12 injective renamings of letters / constants / predicates / variables incl. subscript shifts; '
               'non-trivial = related pairs compared'),
